@@ -2,11 +2,9 @@
    every zone can hold its share ceil(rf / zones) of the replicas. *)
 From Coq Require Import ZArith List Bool Lia Arith Permutation.
 Import ListNotations.
-From Verif Require Import Lib.Corr Lib.Hashring_Ketama Lib.Hashring_KetamaFacts Gen.C19 Model.C19 Proofs.C19.
-From Verif Require Model.C18 Proofs.C18.
+From Verif Require Import Lib.Corr Lib.Hashring_Ketama Lib.Hashring_KetamaFacts Lib.Hashring_Answers Lib.Hashring_AnswersFacts
+  Gen.C19 Model.C19 Proofs.C19.
 Close Scope Z_scope.
-
-Import Model.C18 Proofs.C18.
 
 (* sum of the per-zone counts *)
 Fixpoint count_sum (eps : list (Z * list Z)) (reps : list nat) (azs : list Z) : nat :=
